@@ -42,6 +42,17 @@ func c19LoadShard(fn string) (zoekt.Searcher, error) {
 	return &c19Shard{file: fn, content: string(data)}, nil
 }
 
+// time.Since is replaced for this configuration: while c19Slow is set, any measured duration may
+// be long (6 s) - the loader then publishes what it has loaded so far ("still need to load").
+var c19Slow bool
+
+func c19Since(t time.Time) time.Duration {
+	if c19Slow && verifrt.Bool("this took more than five seconds") {
+		return 6 * time.Second
+	}
+	return 0
+}
+
 type c19Sched struct{}
 
 func (c19Sched) Acquire(ctx context.Context) (*process, error) {
@@ -121,6 +132,8 @@ func H_C19_reload() {
 	}
 	verifrt.Debug("change", label+"; old="+old+" new="+want)
 
+	// the second scan may be slow: loading a shard may take more than five seconds
+	c19Slow = true
 	scanned := false
 	verifrt.Go(func() {
 		verifrt.Assert(w.scan() == nil, "second scan succeeds")
